@@ -13,6 +13,9 @@
 (* of the text never changes what is appended.  "Read" (what \in {"paras", *)
 (* "tables"}) is the accessor pair GetParagraphs / GetTables: it changes    *)
 (* nothing and returns exactly the live elements of that kind, in order.    *)
+(* AddImage may carry same = TRUE: the bytes, the format and the config     *)
+(* object are those of every other such call of the behaviour (a repeated   *)
+(* append is still an append).                                              *)
 (***************************************************************************)
 EXTENDS Integers, Sequences, FiniteSets, TLC
 
@@ -50,12 +53,14 @@ Appends(op) ==
     [] op.op = "AddMathFormula"                  -> <<"math">>
     [] op.op = "GenerateTOC"                     -> <<"sdt">>
     [] op.op = "AddElement"                      -> <<op.k>>
+    \* one list paragraph per item, whatever the items hold (op.blank = index of an item with empty text, 0 = none)
+    [] op.op = "CreateMultiLevelList"            -> [i \in 1..op.n |-> "p"]
     [] OTHER                                     -> <<>>
 
 Constructors == {"AddParagraph", "AddFormattedParagraph", "AddHeadingParagraph",
                  "AddHeadingParagraphWithBookmark", "AddHeadingWithBookmark",
                  "AddPageBreak", "AddTable", "AddImage", "AddListItem", "AddFootnote",
-                 "AddEndnote", "AddMathFormula", "GenerateTOC", "AddElement"}
+                 "AddEndnote", "AddMathFormula", "GenerateTOC", "AddElement", "CreateMultiLevelList"}
 
 \* calls that (find or) create the section settings; they never move anything
 SectTouchers == {"SetPageMargins", "SetPageSize", "SetPageOrientation", "GetPageSettings",
